@@ -25,15 +25,15 @@ import (
 
 // signCase is one signing request as a relic client would issue it.
 type signCase struct {
-	Mod     string     // module name
-	SigType string     // what is sent as sigtype (may be an alias of Mod)
-	File    string     // client.filename
-	Input   []byte     // the file on the client
-	Flags   url.Values // module flags
-	Digest  string     // "" = default
-	Hash    crypto.Hash
-	HashName string    // as the audit record spells it
-	PGP     bool
+	Mod      string     // module name
+	SigType  string     // what is sent as sigtype (may be an alias of Mod)
+	File     string     // client.filename
+	Input    []byte     // the file on the client
+	Flags    url.Values // module flags
+	Digest   string     // "" = default
+	Hash     crypto.Hash
+	HashName string // as the audit record spells it
+	PGP      bool
 }
 
 var digestChoices = []struct {
